@@ -143,14 +143,21 @@ private:
 
 inline QString qtMsgTypeToString(QtMsgType type, const QString &a_default = QStringLiteral("debug"))
 {
-    static const auto map = QHash<QtMsgType, QString> {
-        { QtDebugMsg, QStringLiteral("debug") },
-        { QtInfoMsg, QStringLiteral("info") },
-        { QtWarningMsg, QStringLiteral("warning") },
-        { QtCriticalMsg, QStringLiteral("critical") },
-        { QtFatalMsg, QStringLiteral("fatal") },
-    };
-    return map.value(type, a_default);
+    // No function-local static table here: formatters call this while the logger drains its
+    // backlog from a static destructor at process exit, after such a table would be destroyed.
+    switch (type) {
+    case QtDebugMsg:
+        return QStringLiteral("debug");
+    case QtInfoMsg:
+        return QStringLiteral("info");
+    case QtWarningMsg:
+        return QStringLiteral("warning");
+    case QtCriticalMsg:
+        return QStringLiteral("critical");
+    case QtFatalMsg:
+        return QStringLiteral("fatal");
+    }
+    return a_default;
 }
 
 inline QtMsgType stringToQtMsgType(const QString &str, QtMsgType a_default= QtDebugMsg)
